@@ -3,6 +3,6 @@
 import sys, os
 sys.path.insert(0, os.path.dirname(os.path.abspath(__file__)))
 import common
-for cfg in ["std", "std-nocheck", "libm", "libm-nocheck", "micromath", "micromath-nocheck"]:
+for cfg in common.ALL_CONFIGS:
     b, t = common.build_props(cfg)
     print("built %s in %.1fs" % (b, t))
